@@ -203,7 +203,7 @@ Proof.
 Qed.
 
 Lemma pass_loop_MM fuel : forall v run p,
-  VamInv c v -> MM ms0 v [] -> run_idle run -> 0 <= dr_max_bytes run -> 0 <= dr_max_allocs run -> PassProofs.pass_running p -> VamGran.GV v ->
+  VamInv c v -> MM ms0 v [] -> run_idle run -> 0 <= dr_max_bytes run -> 0 <= dr_max_allocs run -> PassProofs.pass_running p -> VamGran.GV c v ->
   let '(v', run', r) := pass_loop c fuel v run p in match r with OK _ => MM ms0 v' [] | _ => True end.
 Proof.
   induction fuel as [|f IH]; intros v run p HI HM Hidle Hb Ha Hrun HG; cbn [pass_loop]; [exact I|].
@@ -362,7 +362,7 @@ Qed.
 (* ---------------------------------------------------------------- one defragmentation call *)
 
 Lemma dexec_MM v run o :
-  VamInv c v -> MM ms0 v [] -> VamGran.GV v -> drun_ok v run -> dop_ok v run o ->
+  VamInv c v -> MM ms0 v [] -> VamGran.GV c v -> drun_ok v run -> dop_ok v run o ->
   let '(v', run', r, dr) := dexec c v run o in match r with OK _ | ER _ => MM ms0 v' [] | _ => True end.
 Proof.
   intros HI HM HV Hr Hok. destruct o as [flags pool mb ma| |ds|]; cbn [dexec].
@@ -392,7 +392,7 @@ Let Hmax := ca_max c Ha.
 Let Hlarge := ca_large c Ha.
 
 Theorem dstep_preservesM v run o f :
-  VamInv c v -> MapInv v [] -> VamGran.GV v -> drun_ok v run -> dop_ok v run o ->
+  VamInv c v -> MapInv v [] -> VamGran.GV c v -> drun_ok v run -> dop_ok v run o ->
   let '(v', run', r, calls, dr) := dstep c v run o f in
   r <> RPanic -> r <> RStuck -> MapInv v' [] /\ replay (m_mems (v_m v)) calls (m_mems (v_m v')).
 Proof.
@@ -407,7 +407,7 @@ Proof.
   { split; [apply Hsub; [exact HM|reflexivity]|]. unfold LogOk, v0, ms0. cbn. constructor. }
   assert (Hr0 : drun_ok v0 run) by (destruct run as [rn|]; [apply run_ok_set_m; exact Hr|exact I]).
   assert (Hok0 : dop_ok v0 run o) by (destruct o; cbn in *; auto).
-  pose proof (dexec_MM c Hc Hmax Hlarge ms0 v0 run o I0 M0 (VamGran.GR_set_m v _ HV) Hr0 Hok0) as E.
+  pose proof (dexec_MM c Hc Hmax Hlarge ms0 v0 run o I0 M0 (VamGran.GR_set_m c v _ HV) Hr0 Hok0) as E.
   destruct (dexec c v0 run o) as (((v1 & run1) & r) & dr).
   intros Hp Hs. destruct r as [[]|code| |]; cbn in Hp, Hs; try congruence; destruct E as (M & L);
     (split; [apply Hsub; [exact M|reflexivity]|exact L]).
